@@ -1,3 +1,4 @@
+import numpy as np
 from optiland.optimization.variable.base import VariableBehavior
 
 
@@ -23,6 +24,23 @@ class RadiusVariable(VariableBehavior):
 
     def __init__(self, optic, surface_number, apply_scaling=True, **kwargs):
         super().__init__(optic, surface_number, apply_scaling, **kwargs)
+
+        # geometry and radius present when the variable is created
+        surface = self._surfaces.surfaces[surface_number]
+        self._initial_geometry = surface.geometry
+        self._initial_radius = surface.geometry.radius
+
+    def reset(self):
+        """
+        Restores the radius present when the variable was created. A surface
+        that was a plane gets its plane geometry back (set_radius(inf) would
+        leave a standard geometry of infinite radius, which cannot be traced).
+        """
+        surface = self._surfaces.surfaces[self.surface_number]
+        if np.isinf(self._initial_radius):
+            surface.geometry = self._initial_geometry
+        else:
+            self.optic.set_radius(self._initial_radius, self.surface_number)
 
     def get_value(self):
         """
